@@ -250,7 +250,7 @@ theorem level_patterns_admit_header :
 
 /-! ### non-vacuity: a concrete accepted history and concrete rejected ones -/
 
-def cfg0 : Config := { pcm := 0, slicesX := 2, slicesY := 1, levelPattern := .star (.sym WILDCARD) }
+def cfg0 : Config := { slicesX := 2, slicesY := 1, levelPattern := .star (.sym WILDCARD) }
 def hdr (prev : Nat) : DUnit := { kind := .seqHdr, code := 0, len := 30, next := 30, prev := prev, majorVersion := 3, profile := 3 }
 def pic (n prev : Nat) : DUnit := { kind := .picture, code := 232, len := 50, next := 50, prev := prev, picNum := n }
 def fr0 (n prev : Nat) : DUnit := { kind := .fragment, code := 236, len := 40, next := 40, prev := prev, picNum := n }
